@@ -444,7 +444,13 @@ def compare(cfg: kaisa.Config, hist: list[dict[str, Any]],
                     add('hp', i, f'{p}={got} spec {want}')
             elif abs(got - want) > 1e-12 * max(1.0, abs(want)):
                 add('hp', i, f'{p}={got} spec {want}')
+        # C04 speaks about the factors AFTER A STEP: in a distributed run the
+        # state between the hooks and the step (reductions possibly still to
+        # come) is an implementation choice and is not compared
+        factor_ops = ('step', 'load', 'save', 'mem')
         for name in layers:
+            if cfg.W > 1 and act not in factor_ops:
+                break
             for kind, key in (('A', 'aFac'), ('G', 'gFac')):
                 want_t = interp.factor(obs[key], name, kind)
                 got_t = out['factors'][name][kind]
